@@ -32,7 +32,7 @@ static Problem gen_problem(vh::Rng& g, int it, bool spd_only)
         for (int k = 0; k < m; k++) { int i = g.below(n), j = g.below(n); if (i == j) continue;
             if (p.kind == 4 && (i % 5 == 4 || j % 5 == 4)) continue;            // every fifth vertex isolated
             double w = 0.25 * g.range(1, 16); add(i, j, -w); add(j, i, -w); diag[i] += w; diag[j] += w; }
-        double shift = g.coin(1, 3) ? 1.0 : 0.0625;
+        double shift = g.coin(1, 3) ? 1.0 : (g.coin(1, 3) ? 3.5 : 0.0625);   // also the diagonal of the decoupled rows of kind 4
         for (int i = 0; i < n; i++) add(i, i, diag[i] + shift);
     } else if (p.kind == 2) {      // variable-coefficient 1-D/2-D diffusion (SPD M-matrix)
         int nx = g.range(3, 10), ny = g.coin() ? 1 : g.range(2, 7); int n = nx * ny; p.n = n; std::vector<double> diag(n, 0.0);
@@ -69,7 +69,7 @@ static Opts gen_opts(vh::Rng& g, bool gs_only)
     o.relax = gs_only ? 1 + g.below(2) : g.below(3); o.sweeps = g.coin(3, 4) ? 1 : 2;
     o.weight = gs_only ? 1.0 : (o.relax == 0 ? (g.coin() ? 2.0 / 3 : 0.8) : (g.coin() ? 1.0 : 0.5 + g.unit()));
     o.theta = g.coin() ? 0.25 : (g.coin() ? 0.0 : 0.5);
-    o.max_coarse = g.coin() ? g.range(2, 10) : 50; o.max_levels = g.coin(1, 5) ? g.range(1, 3) : 25;
+    o.max_coarse = g.coin() ? g.range(2, 10) : 50; o.max_levels = g.coin(1, 3) ? g.range(1, 3) : 25;
     o.tap = (E.np > 1 && g.coin(1, 3)) ? g.below(2) : -1; o.max_iter = g.range(1, 30); o.tol = g.coin() ? 1e-7 : 1e-4;
     return o;
 }
@@ -269,7 +269,7 @@ int main(int argc, char** argv)
     if (argc > 3 && !strcmp(argv[3], "seq")) { if (E.np == 1) run_seq(mode); E.finish(); MPI_Finalize(); return 0; }
     bool c10 = !strcmp(mode, "C10"), c01 = !strcmp(mode, "C01"), c08 = !strcmp(mode, "C08"), c09 = !strcmp(mode, "C09");
     vh::Rng g(E.seed * 2750159 + (c10 ? 10 : c01 ? 1 : c08 ? 8 : 9));
-    int ncases = E.thorough ? 60 : (c08 ? 24 : 14);
+    int ncases = E.thorough ? 60 : (c08 ? 36 : 14);
     for (int it = 0; it < ncases; it++)
     {
         Problem p = gen_problem(g, it, c10);
